@@ -22,6 +22,8 @@ mod search;
 #[cfg(not(chess_verif_shuttle))]
 mod gamesc;
 #[cfg(not(chess_verif_shuttle))]
+mod cli;
+#[cfg(not(chess_verif_shuttle))]
 mod tables;
 #[cfg(chess_verif_shuttle)]
 mod sched;
@@ -124,6 +126,8 @@ pub fn gen_plan(prop: &str, seed: u64, index: u64, tier: Tier) -> Plan {
         #[cfg(not(chess_verif_shuttle))]
         "C14" | "C15" | "C19" => gamesc::gen_plan(prop, seed, index, tier),
         #[cfg(not(chess_verif_shuttle))]
+        "C14CLI" | "C10CLI" => cli::gen_plan(prop, seed, index, tier),
+        #[cfg(not(chess_verif_shuttle))]
         "C11" => tables::gen_plan(prop, seed, index, tier),
         #[cfg(chess_verif_shuttle)]
         "C09" | "C07" | "C10" => sched::gen_plan(prop, seed, index, tier),
@@ -136,6 +140,8 @@ pub fn gen_plan(prop: &str, seed: u64, index: u64, tier: Tier) -> Plan {
 
 fn exec_raw(plan: &Plan) -> Outcome {
     match plan.property.as_str() {
+        #[cfg(not(chess_verif_shuttle))]
+        _ if plan.scenario.starts_with("cli-") => cli::exec(plan),
         #[cfg(not(chess_verif_shuttle))]
         "C02" | "C04" | "C05" | "C06" | "C12" | "C16" | "C17" if plan.scenario != "game-loop" => hist::exec(plan),
         #[cfg(not(chess_verif_shuttle))]
